@@ -36,7 +36,7 @@ def work(tier, seed):
         if not bl:
             continue
         for gi, kind in enumerate(b["grids"]):
-            items.append({"blocks": [list(x) for x in bl], "grid": kind, "scalars": gi == 0})
+            items.append({"blocks": [list(x) for x in bl], "grid": kind, "scalars": gi == 0, "mutated": gi == 0})
     return items
 
 
